@@ -72,17 +72,25 @@ func (s *c06State) open() {
 
 // rebuild makes a fresh database holding the model's rows (after an engine panic the old instance is unusable).
 func (s *c06State) rebuild() {
-	s.open()
-	if len(s.t.Rows) > 0 {
-		txn := s.db.Begin()
-		for i := 0; i < len(s.t.Rows); i += 50 {
-			j := i + 50
-			if j > len(s.t.Rows) {
-				j = len(s.t.Rows)
+	msg, panicked := guarded(func() {
+		s.open()
+		if len(s.t.Rows) > 0 {
+			txn := s.db.Begin()
+			for i := 0; i < len(s.t.Rows); i += 50 {
+				j := i + 50
+				if j > len(s.t.Rows) {
+					j = len(s.t.Rows)
+				}
+				s.db.InsertPlan(txn, s.t.Name, s.t.Rows[i:j])
 			}
-			s.db.InsertPlan(txn, s.t.Name, s.t.Rows[i:j])
+			s.db.Commit(txn)
 		}
-		s.db.Commit(txn)
+	})
+	if panicked {
+		// the model's rows cannot be loaded again (only seen inside the trigger regions of listed findings, e.g. over-long indexed strings)
+		s.res.Violate("dml-panic", append(s.tagsFor(&rm.Pred{Col: s.t.Cols[0].Name, Op: rm.Ne}, nil), "insert"), s.caseDesc("reload of the model rows", nil), "reloading the table panicked: %s", msg)
+		s.t.Rows = nil
+		s.open()
 	}
 }
 
